@@ -337,6 +337,15 @@ fn diagnostics(report: &Report, tier: Tier) {
         let symbols: Vec<i32> = (lo..=hi).collect();
         diag_check!(report, n, m, probs, 12, symbols, "quantised Gaussian <i32,u16,12>");
     }
+    // narrow SIGNED symbol types with supports wider than half the type (offsets from the lowest symbol do not fit the
+    // symbol type itself): the diagnostics iterate the symbol table, the reference probabilities come from direct queries
+    for (mu, sigma, lo, hi) in [(0.3, 20.0, -100i8, 100i8), (-90.0, 3.0, -128, 127), (100.0, 50.0, -128, 127), (0.0, 1.0, -1, 127)] {
+        let quantizer = LeakyQuantizer::<f64, i8, u16, 12>::new(lo..=hi);
+        let m = quantizer.quantize(probability::distribution::Gaussian::new(mu, sigma));
+        let probs: Vec<u64> = (lo..=hi).map(|s| { use constriction::NonZeroBitArray; m.left_cumulative_and_probability(s).unwrap().1.get() as u64 }).collect();
+        let symbols: Vec<i8> = (lo..=hi).collect();
+        diag_check!(report, n, m, probs, 12, symbols, "quantised Gaussian <i8,u16,12>");
+    }
     report.count("diagnostic_values_compared", n);
     report.add_traces(n);
     report.add_transitions(n);
